@@ -210,4 +210,33 @@ MUTANTS = [
         self.validate()""", """        self.additional_variants = data.get("additional_variants", [])""")]},
     {"name": "c07-treeinfo-stage2-no-validate-on-read", "prop": "C07", "edits": [(TI, """            self.instimage = self._fix_path(parser.get(self._section, "instimage"))
         self.validate()""", """            self.instimage = self._fix_path(parser.get(self._section, "instimage"))""")]},
+    # ---- third generation: stateful (shared mutable defaults, caches)
+    {"name": "st-image-additional_variants-shared-default", "prop": ["C02", "C06"], "edits": [(IM, """        self.additional_variants = []   #: (*[str]*)""", """        self.additional_variants = Image._NO_VARIANTS   #: (*[str]*)"""),
+        (IM, """class Image(productmd.common.MetadataBase):
+    def __init__(self, parent):""", """class Image(productmd.common.MetadataBase):
+    _NO_VARIANTS = []
+
+    def __init__(self, parent):""")]},
+    {"name": "st-variant-arches-shared-default", "prop": ["C01", "C08", "C11"], "edits": [(CI, """        self.arches = set()     #: (*set(<str>)*) -- set of arches for a variant""", """        self.arches = Variant._NO_ARCHES     #: (*set(<str>)*) -- set of arches for a variant"""),
+        (CI, """class Variant(VariantBase):
+    def __init__(self, metadata):""", """class Variant(VariantBase):
+    _NO_ARCHES = set()
+
+    def __init__(self, metadata):""")]},
+    {"name": "st-discinfo-disc_numbers-shared-default", "prop": ["C04", "C08"], "edits": [(DI, """        self.disc_numbers = []          #: List with disc numbers or ["ALL"]""", """        self.disc_numbers = DiscInfo._NONE          #: List with disc numbers or ["ALL"]"""),
+        (DI, """    def __init__(self):
+        super(DiscInfo, self).__init__()""", """    _NONE = []
+
+    def __init__(self):
+        super(DiscInfo, self).__init__()""")]},
+    {"name": "st-variantpaths-shared-table", "prop": ["C01", "C08"], "edits": [(CI, """        for name in self._fields:
+            setattr(self, name, {})
+
+    def __repr__(self):
+        return u'<%s:variant=%s>' % (self.__class__.__name__, self._variant.uid)""", """        empty = {}
+        for name in self._fields:
+            setattr(self, name, empty if name.startswith("debug_") else {})
+
+    def __repr__(self):
+        return u'<%s:variant=%s>' % (self.__class__.__name__, self._variant.uid)""")]},
 ]
